@@ -156,7 +156,8 @@ Record world := mkW {
   w_tick  : nat;                             (* events started so far *)
   w_crash : option nat;                      (* the process dies immediately before event number k *)
   w_sched : list (nat * action);
-  w_trace : list (ev * option nat)           (* most recent first *)
+  w_trace : list (ev * option nat);          (* most recent first *)
+  w_intruded : bool                          (* a scheduled AAppear really created the destination *)
 }.
 
 Inductive outcome (A : Type) := Val (a : A) | Exc (e : exn) | Crashed.
@@ -205,6 +206,12 @@ Definition interfere (w : world) : fs :=
   | None => w_fs w
   end.
 
+Definition intrudes (w : world) : bool :=
+  match sched_appear (w_sched w) (w_tick w) with
+  | Some _ => match f_dir (w_fs w) (w_dest w) with None => true | Some _ => false end
+  | None => false
+  end.
+
 Definition exn_of_fault (e : ev) (errno : nat) : exn :=
   match e with
   | EFdopen => if Nat.eqb errno EINVAL then ValueError else OSErr errno
@@ -225,7 +232,8 @@ Definition after_fault (umask : N) (e : ev) (s : fs) (f : fstate) : fs * fstate 
   end.
 
 Definition next_world (w : world) (s : fs) (f : fstate) (e : ev) (r : option nat) : world :=
-  mkW s f (w_umask w) (w_dest w) (S (w_tick w)) (w_crash w) (w_sched w) ((e, r) :: w_trace w).
+  mkW s f (w_umask w) (w_dest w) (S (w_tick w)) (w_crash w) (w_sched w) ((e, r) :: w_trace w)
+      (w_intruded w || intrudes w).
 
 Definition fault_of (forced : option nat) (w : world) : option nat :=
   match forced with Some x => Some x | None => sched_fault (w_sched w) (w_tick w) end.
@@ -324,6 +332,16 @@ Fixpoint run_body (ops : list bop) : M unit :=
   | BFlush :: r => prim EFlush ;;; run_body r
   end.
 
+(* the buffering oracle is in range at every write: vl = bytes in the kernel, bl = bytes still buffered *)
+Fixpoint oracle_ok (vl bl : N) (ops : list bop) : bool :=
+  match ops with
+  | [] => true
+  | BWrite d k :: r =>
+      let all := (vl + bl + blen d)%N in
+      (vl <=? k)%N && (k <=? all)%N && oracle_ok k (all - k)%N r
+  | BFlush :: r => oracle_ok (vl + bl)%N 0%N r
+  end.
+
 Definition BODY_EXN := OtherExn 1.
 
 Definition body (ops : list bop) (raises : bool) : M unit :=
@@ -354,7 +372,7 @@ Definition mode_of (s : fs) (n : name) : option N :=
   match f_dir s n with Some i => Some (i_mode (f_ino s i)) | None => None end.
 
 Definition init_world (s : fs) (umask : N) (dest : name) (crash : option nat) (sched : list (nat * action)) : world :=
-  mkW s FNone umask dest 0 crash sched [].
+  mkW s FNone umask dest 0 crash sched [] false.
 
 Definition run_save (c : cfg) (ops : list bop) (raises : bool) (s : fs) (umask : N)
            (crash : option nat) (sched : list (nat * action)) : outcome unit * world :=
